@@ -151,3 +151,29 @@ Proof.
   - rewrite write_chunks_all in H. cbn [negb append] in H. rewrite R in H. inversion H; subst; clear H.
     split; [reflexivity | intros p N; apply KEEP; exact N].
 Qed.
+
+(* the premise of serialize_xdev_exact, stated over the tree before the call: creating the fresh temp entry does not change
+   where the destination's chain of links ends, unless it ends at the temp name itself *)
+Lemma lresolve_fresh : forall fuel fs tmp e p r,
+  lget fs tmp = None -> lresolve fuel fs p = Some r -> r <> tmp -> lresolve fuel (lset tmp e fs) p = Some r.
+Proof.
+  induction fuel as [|k IH]; intros fs tmp e p r FT H NT; cbn [lresolve] in *.
+  - destruct (String.eqb p tmp) eqn:E.
+    + apply String.eqb_eq in E. subst p. rewrite FT in H. inversion H; subst. contradiction.
+    + apply String.eqb_neq in E. unfold lget, lset. rewrite lookup_dset_other by congruence. exact H.
+  - destruct (String.eqb p tmp) eqn:E.
+    + apply String.eqb_eq in E. subst p. rewrite FT in H. inversion H; subst. contradiction.
+    + apply String.eqb_neq in E. unfold lget at 1, lset. rewrite lookup_dset_other by congruence.
+      fold (lget fs p). destruct (lget fs p) as [[c|t]|]; try exact H. exact (IH fs tmp e t r FT H NT).
+Qed.
+
+Corollary serialize_xdev_exact_before : forall fuel fs name tmp cs path r fs' ok,
+  dest_path name = Some path -> lget fs tmp = None ->
+  lresolve fuel fs path = Some r -> r <> tmp ->
+  serialize_to_lx fuel fs name tmp cs NoFault = (fs', ok) ->
+  ok = true /\ lget fs' r = Some (EFile (cat cs)) /\ lread fuel fs' path = Some (cat cs) /\
+  (forall p, p <> r -> lget fs' p = lget fs p).
+Proof.
+  intros fuel fs name tmp cs path r fs' ok D FT R NT H.
+  exact (serialize_xdev_exact _ _ _ _ _ _ _ _ _ D FT (lresolve_fresh _ _ _ _ _ _ FT R NT) NT H).
+Qed.
